@@ -183,6 +183,18 @@ def judge (T : Tables) (stream : Bytes) (outs : List Bytes) : Verdict :=
     | some (k, true) => if k < reqs.length then .misfit k else .count reqs.length (k + 1)
     | some (k, false) => .count reqs.length k
 
+/-- judge a run that ended because the peer went away (a `sendall` failed): what was delivered are whole
+lines, and the replies among them answer the first request lines, one fitting reply each, in order;
+the last request lines may be unanswered -/
+def judgeGone (T : Tables) (stream : Bytes) (outs : List Bytes) : Verdict :=
+  match outs.findIdx? (fun o => !wholeLine o) with
+  | some i => .split i
+  | none =>
+    let reqs := (splitLines stream).lines
+    match scan T 0 reqs outs with
+    | some (k, true) => if k < reqs.length then .misfit k else .count reqs.length (k + 1)
+    | _ => .ok
+
 /-- the module part of a specifier `module[:accessible]` -/
 def moduleOf (spec : Bytes) : Bytes := spec.takeWhile (· != 58)
 
@@ -202,5 +214,82 @@ def judgeAll (T : Tables) (stream : Bytes) (outs : List Bytes) (flags : List (Bo
     | none, some i => .notStrict i
     | none, none => .ok
   | v => v
+
+/-! ## "No input changes the answers given to other lines"
+
+A request line is *neutral* when its action is not one of the requests a module carries out
+(`read` polls the hardware, `change` writes a parameter, `do` runs a command — these are meant to
+change what later requests are answered).  Everything else — `describe`, `*IDN?`, `ping`, `help`,
+`activate`, `deactivate`, `logging`, blank lines, unknown actions, undecodable bytes — must leave the
+answers to all other lines as they are, on this and on every other connection of the node. -/
+
+/-- the line asks for nothing a module carries out -/
+def Neutral (T : Tables) (line : Bytes) : Bool := !(T.stateActions.contains (reqOf T line).action)
+
+/-- the line is not a message: its text is not valid UTF-8 or its data part is not JSON (`decode_msg`
+raises, the request loop answers it with an error reply without asking the dispatcher) -/
+def undecodableB {J : Type} (L : Lib J) (line : Bytes) : Bool :=
+  !L.utf8ok (strip line) || ((parts (strip line)).data != [] && (L.loads (parts (strip line)).data).isNone)
+
+/-- a line that may be left out: neutral, or not a message at all (also when it begins like `read`,
+`change` or `do`) -/
+def Removable {J : Type} (T : Tables) (L : Lib J) (line : Bytes) : Bool := Neutral T line || undecodableB L line
+
+/-- request lines with a mark: `true` = the line stays, `false` = the line is left out -/
+abbrev Marked := List (Bytes × Bool)
+
+def allLines (m : Marked) : List Bytes := m.map Prod.fst
+def keptLines (m : Marked) : List Bytes := (m.filter Prod.snd).map Prod.fst
+
+/-- only neutral lines and lines that are not messages are left out -/
+def OnlyNeutralDropped {J : Type} (T : Tables) (L : Lib J) (m : Marked) : Prop :=
+  ∀ p ∈ m, p.2 = false → Removable T L p.1 = true
+
+instance {J : Type} (T : Tables) (L : Lib J) (m : Marked) : Decidable (OnlyNeutralDropped T L m) := by
+  unfold OnlyNeutralDropped; infer_instance
+
+/-- of one answer per line of `allLines m`, those to the lines that stay -/
+def keptOf {α : Type} : Marked → List α → List α
+  | [], _ => []
+  | _, [] => []
+  | (_, true) :: m, a :: as => a :: keptOf m as
+  | (_, false) :: m, _ :: as => keptOf m as
+
+/-- the reply lines among the emitted lines, one slot per request line: the first line that fits the
+oldest unanswered request is its reply (as `scan`); `none` = no reply found -/
+def pairReplies (T : Tables) : List Bytes → List Bytes → List (Option Bytes)
+  | reqs, [] => reqs.map (fun _ => none)
+  | [], _ :: _ => []
+  | r :: rs, o :: os => if fitsLineB T r o then some o :: pairReplies T rs os else pairReplies T (r :: rs) os
+
+inductive IndepVerdict where
+  | ok
+  /-- the case leaves out line `k`, which is a message some module carries out (a defect of the case, not of the code) -/
+  | notNeutral (k : Nat)
+  /-- the answer to the `k`-th line that stays is another one when the marked lines are left out -/
+  | changed (k : Nat)
+deriving DecidableEq, Repr
+
+/-- judge one connection of a pair of runs on two fresh nodes: `outsAll` was emitted for all the lines,
+`outsKept` for the lines that stay.  The emitted lines come canonicalised by the harness (time stamps
+masked, error reports reduced to the class name). -/
+def judgeIndep {J : Type} (T : Tables) (L : Lib J) (m : Marked) (outsAll outsKept : List Bytes) : IndepVerdict :=
+  match m.findIdx? (fun p => !p.2 && !Removable T L p.1) with
+  | some k => .notNeutral k
+  | none =>
+    let a := keptOf m (pairReplies T (allLines m) outsAll)
+    let b := pairReplies T (keptLines m) outsKept
+    match (a.zip b).findIdx? (fun p => p.1 != p.2) with
+    | some k => .changed k
+    | none => if a.length = b.length then .ok else .changed (min a.length b.length)
+
+/-- the dispatcher keeps its part of "no input changes the answers given to other lines": `R` relates
+dispatcher states that answer alike (for the real dispatcher: the same state of the modules, whatever
+the subscriptions); requests that no module carries out lead to a state related to the one before -/
+structure DispNeutral {J σ : Type} (T : Tables) (d : Disp σ J) (R : σ → σ → Prop) : Prop where
+  refl : ∀ a, R a a
+  trans : ∀ a b c, R a b → R b c → R a c
+  same : ∀ s s' t, R s s' → (d s t).1.res = (d s' t).1.res ∧ R (d s t).2 (d s' t).2
+  neutral : ∀ s t, t.action ∉ T.stateActions → R (d s t).2 s
 
 end Frappy.Spec.C07
